@@ -1,5 +1,317 @@
-use crate::Ctx;
+//! C14 – no client input aborts the process, panics a thread inside the library or forces an
+//! allocation proportional to a length the client merely declares.
+//! Cases run sequentially inside a worker; the worker writes BEGIN/END lines to a side file so
+//! that the parent can name the case that killed it. The counting allocator (alloc.rs) charges
+//! library threads and library calls made by harness threads.
 
-pub fn run(_ctx: &Ctx) {
-    unimplemented!()
+use crate::conv::*;
+use crate::env::Env;
+use crate::report::Violation;
+use crate::util::{Rng, J};
+use crate::Ctx;
+use std::io::Write;
+
+const DECLARED: &[&str] = &[
+    "1025", "1000000", "2147483648", "4294967296", "1000000000000", "9223372036854775807", "9223372036854775808",
+    "18446744073709551615", "18446744073709551616", "1000000000000000000000000000000", "4000000000000", "70000",
+];
+
+pub struct Case {
+    pub label: String,
+    pub wire: Vec<u8>,
+    pub plans: Vec<ReqPlan>,
+    pub end: Step,
+}
+
+fn gen_plan(rng: &mut Rng) -> ReqPlan {
+    let read = match rng.below(3) {
+        0 => ReadPlan::None,
+        1 => ReadPlan::Upto(1),
+        _ => ReadPlan::ToEof { extra: 0 },
+    };
+    let finish = match rng.below(3) {
+        0 => Finish::Respond { status: 200, body_len: 5, declared: true, threshold: None, max_piece: 1000 },
+        1 => Finish::Drop,
+        _ => Finish::Writer { status: 200, body_len: 5, parts: vec![(1000, true)], early_drop_sleep_us: 0 },
+    };
+    ReqPlan { read, read_sizes: vec![*rng.pick(&[1usize, 100, 4096, 65536])], as_reader_calls: 1, finish, pre_delay_us: 0 }
+}
+
+fn sprinkle(rng: &mut Rng, b: &mut Vec<u8>, n: usize) {
+    for _ in 0..n {
+        if b.is_empty() {
+            return;
+        }
+        let at = rng.below(b.len());
+        b[at] = match rng.below(4) {
+            0 => 0,
+            1 => rng.below(0x20) as u8,
+            2 => 0x80 + rng.below(0x80) as u8,
+            _ => 0x7f,
+        };
+    }
+}
+
+pub fn gen_case(rng: &mut Rng, thorough: bool) -> Case {
+    let class = rng.below(if thorough { 9 } else { 8 });
+    let mut plans = vec![gen_plan(rng), gen_plan(rng), gen_plan(rng)];
+    let mut wire: Vec<u8>;
+    let mut label;
+    match class {
+        0 | 1 => {
+            let d = *rng.pick(DECLARED);
+            let sent = rng.below(201);
+            label = format!("content-length:{}+{}B", d, if sent == 0 { "0".to_string() } else { "some".to_string() });
+            wire = format!("POST /a HTTP/1.1\r\nHost: h\r\nContent-Length: {}\r\n\r\n", d).into_bytes();
+            wire.extend(std::iter::repeat(b'x').take(sent));
+        }
+        2 => {
+            let digits = rng.range(1, 40);
+            let hex: String = if rng.chance(1, 4) {
+                "ffffffffffffffff".to_string()
+            } else {
+                (0..digits).map(|i| if i == 0 { *rng.pick(&['1', '7', 'f', 'F', '8']) } else { *rng.pick(&['0', '1', 'a', 'F', '9']) }).collect()
+            };
+            let follows = rng.below(300);
+            label = format!("chunk-size:{}digits", hex.len());
+            wire = b"POST /c HTTP/1.1\r\nHost: h\r\nTransfer-Encoding: chunked\r\n\r\n".to_vec();
+            if rng.chance(1, 3) {
+                wire.extend_from_slice(b"3\r\nabc\r\n");
+            }
+            wire.extend_from_slice(hex.as_bytes());
+            if rng.chance(1, 4) {
+                wire.extend_from_slice(b";ext=1");
+            }
+            wire.extend_from_slice(b"\r\n");
+            wire.extend(std::iter::repeat(b'y').take(follows));
+        }
+        3 => {
+            let n = *rng.pick(&[100usize, 1000, 10000]);
+            label = format!("many-headers:{}", n);
+            wire = b"GET /h HTTP/1.1\r\n".to_vec();
+            for i in 0..n {
+                wire.extend_from_slice(format!("X-H{}: v{}\r\n", i, i).as_bytes());
+            }
+            wire.extend_from_slice(b"\r\n");
+        }
+        4 => {
+            let n = *rng.pick(&[2000usize, 70000, 300000]);
+            label = format!("long-line:{}", n);
+            if rng.chance(1, 2) {
+                wire = format!("GET /{} HTTP/1.1\r\nHost: h\r\n\r\n", "a".repeat(n)).into_bytes();
+            } else {
+                wire = format!("GET /l HTTP/1.1\r\nX-Long: {}\r\n\r\n", "b".repeat(n)).into_bytes();
+            }
+        }
+        5 => {
+            label = "odd-bytes".to_string();
+            wire = b"POST /o HTTP/1.1\r\nHost: h\r\nContent-Length: 10\r\nX-A: b\r\n\r\n0123456789GET /p HTTP/1.1\r\n\r\n".to_vec();
+            let k = rng.range(1, 4);
+            sprinkle(rng, &mut wire, k);
+        }
+        6 => {
+            label = "garbage".to_string();
+            let n = rng.range(1, 3000);
+            wire = (0..n).map(|_| rng.below(256) as u8).collect();
+            if rng.chance(1, 2) {
+                wire.extend_from_slice(b"\r\n\r\n");
+            }
+        }
+        7 => {
+            // valid-looking pipeline with odd framing headers
+            label = "odd-framing".to_string();
+            let v = *rng.pick(&[
+                "Content-Length: 5\r\nContent-Length: 7",
+                "Transfer-Encoding: gzip",
+                "Transfer-Encoding: chunked\r\nTransfer-Encoding: chunked",
+                "Content-Length: 00000000000000000000005",
+                "Expect: 100-continue\r\nContent-Length: 99999999999",
+                "Connection: upgrade\r\nContent-Length: 99999999999999",
+                "Content-Length: 1024\r\nExpect: 100-continue",
+            ]);
+            wire = format!("POST /f HTTP/1.1\r\nHost: h\r\n{}\r\n\r\nhello world", v).into_bytes();
+        }
+        _ => {
+            let n = 5_000_000;
+            label = "5MB-line".to_string();
+            if rng.chance(1, 2) {
+                wire = format!("GET /{} HTTP/1.1\r\nHost: h\r\n\r\n", "a".repeat(n)).into_bytes();
+            } else {
+                wire = format!("GET /l HTTP/1.1\r\nX-Long: {}\r\n\r\n", "b".repeat(n)).into_bytes();
+            }
+        }
+    }
+    // everything truncated at random points
+    if rng.chance(1, 4) && wire.len() > 2 {
+        let at = rng.range(1, wire.len() - 1);
+        wire.truncate(at);
+        label.push_str("+truncated");
+    }
+    if rng.chance(1, 6) {
+        plans.truncate(1);
+    }
+    let end = match rng.below(3) {
+        0 => Step::Close,
+        1 => Step::Reset,
+        _ => Step::HalfClose,
+    };
+    Case { label, wire, plans, end }
+}
+
+pub fn run_case(ctx: &Ctx, env: &Env, cs: u64, side: &mut Option<std::fs::File>) {
+    let rep = &ctx.rep;
+    let mut rng = Rng::new(cs);
+    let c = gen_case(&mut rng, ctx.thorough);
+    if let Some(f) = side.as_mut() {
+        let _ = writeln!(f, "BEGIN {} {}", cs, c.label);
+        let _ = f.flush();
+    }
+    let wl = c.wire.len();
+    let mut script = vec![Step::Send(0, wl)];
+    match c.end {
+        Step::HalfClose => {
+            script.push(Step::HalfClose);
+            script.push(Step::AwaitEnd);
+        }
+        ref s => {
+            script.push(Step::SleepUs(rng.range(0, 2000) as u64));
+            script.push(s.clone());
+        }
+    }
+    let case = ConvCase {
+        label: c.label.clone(),
+        unix: false,
+        reqs: vec![WireReq { bytes: c.wire.clone(), head_len: wl, label: c.label.clone(), abs: None }],
+        wire: c.wire.clone(),
+        plans: c.plans.clone(),
+        script,
+        exp_delivered: Vec::new(),
+        exp_responses: Vec::new(),
+        exp_eof: false,
+        delivery_optional: true,
+        bound_ms: 3000,
+        sched: Sched::Immediate,
+    };
+    let panics_before = crate::env::panics_count();
+    crate::alloc::track_begin();
+    let obs = run_conv(env, &case);
+    // let the connection thread finish its work for this case before reading the counters
+    crate::util::sleep_us(300);
+    let st = crate::alloc::track_end();
+    let sent = wl as u64;
+    let class = c.label.split(':').next().unwrap_or("").split('+').next().unwrap_or("").to_string();
+    rep.inc(&format!("class:{}", class));
+    rep.counts.max("largest_single_allocation_request", st.max_single);
+    rep.counts.max("largest_allocation_volume_per_case", st.volume);
+    let ratio = st.volume / sent.max(1);
+    rep.counts.max("max_volume_to_bytes_sent_ratio_when_over_64KiB", if st.volume > 65536 { ratio } else { 0 });
+    rep.counts.add("deliveries", obs.delivered.len() as u64);
+    let plan0 = c.plans.first().map(|p| format!("{}:{}", p.read_label(usize::MAX), p.finish_label())).unwrap_or_default();
+    rep.eval(Some(&format!("{}|{}|{:?}", c.label, plan0, c.end)));
+    let detail = |extra: J| {
+        J::obj()
+            .set("class", J::s(&c.label))
+            .set("bytes_sent", J::I(sent as i64))
+            .set("wire", J::S(crate::util::esc(&c.wire, 400)))
+            .set("plans", J::A(c.plans.iter().map(|p| J::s(format!("read={:?} finish={}", p.read, p.finish_label()))).collect()))
+            .set("client_end", J::s(format!("{:?}", c.end)))
+            .set("alloc", J::s(format!("{:?}", st)))
+            .set("deliveries", J::A(obs.delivered.iter().map(|d| d.to_json()).collect()))
+            .set("extra", extra)
+    };
+    let mut fired = false;
+    if crate::env::panics_count() > panics_before {
+        let ps = crate::env::panics_take();
+        let p = ps.last().unwrap();
+        let site = p.location.rsplit('/').next().unwrap_or("").to_string();
+        rep.violation(Violation {
+            signature: format!("C14/panic/{}", site),
+            what: format!("panic in thread {:?}: {} at {}", p.thread, p.message, p.location),
+            detail: detail(J::A(ps.iter().map(|p| J::s(format!("{} | {} | {}", p.thread, p.message, p.location))).collect())),
+            case_seed: cs,
+            mode: "native".into(),
+        });
+        fired = true;
+    }
+    let limit_single = (64 * 1024).max(4 * sent);
+    if !fired && st.max_single > limit_single {
+        rep.violation(Violation {
+            signature: format!("C14/allocation-proportional-to-declared-length/{}", class),
+            what: format!(
+                "a single allocation of {} bytes was requested on behalf of a connection that had sent {} bytes",
+                st.max_single, sent
+            ),
+            detail: detail(J::Null),
+            case_seed: cs,
+            mode: "native".into(),
+        });
+        fired = true;
+    }
+    let limit_volume = (1 << 20) + 64 * sent;
+    if !fired && st.volume > limit_volume {
+        rep.violation(Violation {
+            signature: format!("C14/allocation-volume/{}", class),
+            what: format!("{} bytes were allocated on behalf of a connection that had sent {} bytes", st.volume, sent),
+            detail: detail(J::Null),
+            case_seed: cs,
+            mode: "native".into(),
+        });
+        fired = true;
+    }
+    if !fired && !obs.handlers_done && obs.healthy {
+        rep.violation(Violation {
+            signature: format!("C14/handler-blocked/{}", class),
+            what: "an application call into the library did not return after the client was gone".into(),
+            detail: detail(J::Null),
+            case_seed: cs,
+            mode: "native".into(),
+        });
+    }
+    if let Some(f) = side.as_mut() {
+        let _ = writeln!(f, "END {}", cs);
+        let _ = f.flush();
+    }
+    if rep.want_sample() && cs % 31 == 0 {
+        rep.sample(|| detail(J::Null));
+    }
+}
+
+pub fn run(ctx: &Ctx) {
+    crate::env::install_fp_hook();
+    // an absurd allocation must fail fast instead of being lazily granted
+    unsafe {
+        let lim = libc::rlimit { rlim_cur: 8 << 30, rlim_max: 8 << 30 };
+        libc::setrlimit(libc::RLIMIT_AS, &lim);
+    }
+    let side_path = std::env::var("VH_SIDE_FILE").ok();
+    let mut side = side_path.and_then(|p| std::fs::OpenOptions::new().create(true).append(true).open(p).ok());
+    let mut env = Env::new(false, 1);
+    if let Some((cs, _, repeat)) = &ctx.replay {
+        for _ in 0..(*repeat).max(1) {
+            run_case(ctx, &env, *cs, &mut side);
+        }
+        return;
+    }
+    let mut idx = 0u64;
+    while ctx.time_left() {
+        if env.cases_run >= 2000 {
+            env = Env::new(false, 1);
+        }
+        run_case(ctx, &env, ctx.case_seed(idx), &mut side);
+        env.cases_run += 1;
+        idx += 1;
+        if idx % 50 == 0 && env.control(std::time::Duration::from_millis(1500)).is_none() {
+            ctx.rep.violation(Violation {
+                signature: "C14/server-stopped-serving".into(),
+                what: "the server no longer serves fresh connections".into(),
+                detail: J::Null,
+                case_seed: ctx.case_seed(idx),
+                mode: "native".into(),
+            });
+            break;
+        }
+        if ctx.rep.n_violations() >= 10 {
+            break;
+        }
+    }
 }
